@@ -203,6 +203,9 @@ class Gen:
                 c = self.ref({"k": "bex", "n": r.choice(t)})
             else:
                 c = self.gen(d - 1)
+                if c["k"] == "bref":
+                    # a condition that is only a back-reference is read as the group test (?(N)..) by the parser
+                    c = {"k": "cat", "xs": [c, {"k": "look", "neg": False, "x": {"k": "empty"}}]}
             y = self.gen(d - 1)
             n = self.gen(d - 1) if r.random() < 0.7 else {"k": "empty"}
             if y["k"] == "empty" and n["k"] == "empty":
